@@ -91,7 +91,7 @@ C09(i) ==
 
 (* ---------------- C10: what reset returns ---------------- *)
 C10(i) ==
-  (IF IsReset(i) THEN
+  (IF IsReset(i) /\ ~Cfg.prefilled THEN          \* (prefilled: the harness replaced the start position)
      LET s == Ev(i).s IN
      { <<"C10.wellformed_initial_state",
            /\ PaddedShape(s.grid_padded)
